@@ -77,6 +77,35 @@ Fixpoint custom_sem (ts : list tok) (p : nat) : bool * nat :=
       end
   end.
 
+(* the program of a custom parser, over positions: the checkpoint stack holds positions, the state read is ust_at *)
+Fixpoint prog_sem (ops : list cop) (start : nat) (stack : list nat) (acc : list val) (p : nat) : bool * list val * nat :=
+  match ops with
+  | [] => (true, acc, p)
+  | o :: r =>
+      match o with
+      | CNext | CNextRef =>
+          match nth_error toks p with
+          | Some t => prog_sem r start stack (VTok t :: acc) (S p)
+          | None => prog_sem r start stack (VUnit :: acc) p
+          end
+      | CPeek => prog_sem r start stack (match nth_error toks p with Some t => VTok t | None => VUnit end :: acc) p
+      | CSkip => prog_sem r start stack acc (match nth_error toks p with Some _ => S p | None => p end)
+      | CSave => prog_sem r start (p :: stack) acc p
+      | CRewind =>
+          match stack with
+          | q :: stack' => prog_sem r start stack' acc q
+          | [] => prog_sem r start stack acc p
+          end
+      | CExpect t =>
+          match nth_error toks p with
+          | Some u => if N.eqb t u then prog_sem r start stack acc (S p) else (false, acc, S p)
+          | None => (false, acc, p)
+          end
+      | CSpan => prog_sem r start stack (VSpan (fst (spn start p)) (snd (spn start p)) :: acc) p
+      | CState => prog_sem r start stack (VNum (ust_at p) :: acc) p
+      end
+  end.
+
 Definition srun_t := G -> env -> nat -> reg -> option sres.
 
 Section SLoops.
@@ -206,6 +235,23 @@ Fixpoint it_snext (i : IT) (ctx : env) (its : itst) (p : nat) (r : reg) : option
       match l with
       | [] => Some (SNone p [], its, r)
       | x :: l' => Some (SSome x p [], SInto (Some l'), r)
+      end
+  | IThen i j, SThen sa (Some sb) =>
+      match it_snext j ctx sb p r with
+      | Some (x, sb', r') => Some (x, SThen sa (Some sb'), r')
+      | None => None
+      end
+  | IThen i j, SThen sa None =>
+      match it_snext i ctx sa p r with
+      | Some (SNone p1 e1, sa', r1) =>
+          match it_snext j ctx (mk_iter j ctx) p1 r1 with
+          | Some (SSome v p2 e2, sb', r2) => Some (SSome v p2 (e1 ++ e2), SThen sa' (Some sb'), r2)
+          | Some (SNone p2 e2, sb', r2) => Some (SNone p2 (e1 ++ e2), SThen sa' (Some sb'), r2)
+          | Some (SErr, sb', r2) => Some (SErr, SThen sa' (Some sb'), r2)
+          | None => None
+          end
+      | Some (x, sa', r1) => Some (x, SThen sa' None, r1)
+      | None => None
       end
   | _, _ => None
   end.
@@ -414,6 +460,11 @@ Fixpoint sem (n : nat) (g : G) (ctx : env) (p : nat) (a : reg) {struct n} : opti
       Some match custom_sem ts p with
            | (true, p1) => (Some (VList (map VTok ts), p1, []), a)
            | (false, p1) => (None, ee a p (custom_err K k (spn p p1)))
+           end
+  | Prog ops k =>
+      Some match prog_sem ops p [] [] p with
+           | (true, acc, p1) => (Some (VList (rev acc), p1, []), a)
+           | (false, _, p1) => (None, ee a p (custom_err K k (spn p p1)))
            end
   | Map f x => seq (run x ctx p a) (fun v p1 e1 a1 => Some (Some (ap1 f v, p1, e1), a1))
   | MapWith f x =>
